@@ -293,7 +293,7 @@ pub fn cases(tier: Tier) -> Vec<FileCase> {
         v.push(FileCase { label: format!("a symbolic link to {what}"), kind: PathKind::SymlinkTo(b.clone()) });
         v.push(FileCase { label: format!("{what} in a directory reached through a symbolic link"), kind: PathKind::ViaSymlinkedDir(b.clone()) });
         v.push(FileCase { label: format!("one of two hard links to {what}"), kind: PathKind::HardLink(b.clone()) });
-        for (m, how) in [(1u8, "last modified 40 minutes ago"), (2, "time stamps from January 2001 (before this boot)"), (3, "time stamps one hour in the future")] {
+        for (m, how) in [(1u8, "last modified 40 minutes ago"), (2, "time stamps from January 2001 (before this boot)"), (3, "time stamps one hour in the future"), (4, "mode 0664"), (5, "mode 0666")] {
             v.push(FileCase { label: format!("{what}, {how}"), kind: PathKind::Stamped(b.clone(), m) });
         }
     }
